@@ -38,7 +38,7 @@ def run(rep, ctx):
         if ref is None:
             ref = (h, digests)
             continue
-        diffs = [i for i, (a, b) in enumerate(zip(ref[1], digests)) if a != b]
+        diffs = [i for i, (a, b) in enumerate(zip(ref[1], digests)) if a != b and "TIMEOUT" not in (a, b)]
         if len(digests) != len(ref[1]) or diffs:
             failures.append(dict(case=dict(kind="hash-seed", seeds=[ref[0], h], run_indices=diffs[:10], verif_seed=ctx["seed"], n=n),
                                  what="%d of %d traces differ between PYTHONHASHSEED=%s and %s (first run indices %s); rerun: "
@@ -61,9 +61,12 @@ def run(rep, ctx):
     with ProcessPoolExecutor(max_workers=14) as ex:
         ares = list(ex.map(actors.run_impl_case, [c for c in acases for _ in range(reps)], chunksize=4))
     differing = 0
+    timeouts = 0
     for i, c in enumerate(acases):
         outs = [[t[1] for t in r["snaps"][-1]] for r in ares[i * reps:(i + 1) * reps]]
-        if any(o != outs[0] for o in outs[1:]):
+        outs = [o for o in outs if "TIMEOUT" not in o]     # cut by the wall-clock watchdog: inconclusive
+        timeouts += reps - len(outs)
+        if outs and any(o != outs[0] for o in outs[1:]):
             differing += 1
             failures.append(dict(case=dict(kind="actor-rerun", steps=c[0], engine=c[1], max_iter=c[2]),
                                  what="the same actor scenario, run %d times in fresh processes' worth of generated actor ids, ended differently: "
@@ -76,8 +79,8 @@ def run(rep, ctx):
                              "order included, un-canonicalised) compared byte for byte; distinct = runs" % len(seeds),
                         samples=[dict(hashseeds=seeds, runs=total, first_digests=(ref[1][:3] if ref else []))],
                         traces_validated_against_impl=total * len(seeds),
-                        components={"actor-reruns": dict(scenarios=len(acases), repetitions=reps, differing=differing),
-                                    "hash-seed-runs": dict(seeds=seeds, runs_per_seed=total, differing=sum(len(f["case"].get("run_indices", [])) for f in failures))})
+                        components={"actor-reruns": dict(scenarios=len(acases), repetitions=reps, differing=differing, watchdog_cut=timeouts),
+                                    "hash-seed-runs": dict(seeds=seeds, runs_per_seed=total, watchdog_cut=sum(d.count("TIMEOUT") for d, _ in results if d), differing=sum(len(f["case"].get("run_indices", [])) for f in failures))})
     core.decide(rep, ctx["proof"], disagreements, failures, None)
     rep.assumptions += ["hash-seed and heap-layout independence of the Python process is observed by repeated execution; the theorems are about the "
                         "model's iteration oracle (every set iteration site is followed by a sort with a total order)"]
